@@ -234,7 +234,7 @@ UNITS['hqueue'] = dict(
     skip_functions=['getEvent'],
     env_calls={'getEvent': 'Pol_getEvent'},
     tuple_ctor=['TupV', 'TupW'],
-    exc_edges=True, exit_hooks=['ItemV_ctor_move', 'ItemW_ctor_move'],
+    exc_edges=True, exit_hooks=['ItemV_ctor_move', 'ItemW_ctor_move'], equal_filters=True,
     type_resubst=[(r'QueuedItem<typename FindPrototypeByArgs<.*, VArg( &)?>::ArgsTuple>', HQB + '::QueuedItem<std::tuple<VArg>>'),
                   (r'QueuedItem<typename FindPrototypeByArgs<.*, WArg( &)?>::ArgsTuple>', HQB + '::QueuedItem<std::tuple<WArg>>')],
     fn_rename=[(r'^HQ_doProcessIf__eventpp_internal__FindPrototypeByCallable_eventpp_HeterTuple_void_VArg_void_WArg_(Pred[VW])_Pred[VW]$', r'HQ_doProcessIf__P0_\1'),
@@ -286,3 +286,29 @@ UNITS['hqueuei'].update(tu='inst/hqueuei.cpp', env_overloads=True, rename_number
 UNITS['hqueuei']['fn_rename'] = [
     (r'^HQ_doEnqueue__eventpp_ArgumentPassingIncludeEvent_([VW])Arg$', r'HQ_doEnqueueI__\1'),      # the lvalue call comes first in the TU, the rvalue call is numbered _2
 ] + UNITS['hqueue']['fn_rename']
+
+# HeterEventDispatcher: dispatch / doDispatch / directDispatch in both argument-passing forms; the per-event
+# HeterCallbackList (HCLT) and the event map lookup result are environment
+HDI = 'HeterEventDispatcherBase<int, HeterTuple<void (VArg), void (WArg)>, PolI, void>'
+HDX = 'HeterEventDispatcherBase<int, HeterTuple<void (VArg), void (WArg)>, PolX, void>'
+UNITS['hdispatcher'] = dict(
+    tu='inst/hdispatcher.cpp', filter=['HeterEventDispatcherBas', '_::ForEachMixins', '_::DefaultGetEvent'], std='c++11',
+    root=('ClassTemplateSpecializationDecl', 'HeterEventDispatcherBase'), root_q=HDI,
+    extra_roots=[('ClassTemplateSpecializationDecl', 'HeterEventDispatcherBase', HDX)],
+    names={HDI: 'HDI', HDX: 'HDX', 'VArg': 'VArg', 'WArg': 'WArg'},
+    fn_rename=[(r'^HD([IX])_doDispatch__eventpp_ArgumentPassing(In|Ex)cludeEvent_(int|[VW])(Arg)?$', r'HD\1_doDispatch__\3'),      # lvalue call first in the TU, then the rvalue call: _2
+               (r'^getEvent__int$', 'DefaultGetEvent_getEvent'), (r'^forEach$', 'NoMixins_forEach')],
+    value_records=['VArg', 'WArg'],
+    opaque_records=['VArg', 'WArg', 'HCLT'],
+    ghost_sig=[], env_overloads=True, rename_numbered=True, static_methods_by_type=True, equal_filters=True,
+    type_resubst=[(r'(typename )?std::conditional<std::is_const<.*>::value, const CallbackList_ \*, CallbackList_ \*>::type', 'HeterCallbackList<HeterTuple<void (VArg), void (WArg)>, Pol> *')],
+    env_calls={'getEvent': 'Pol_getEvent'},
+    type_rules=[
+      (r'Handle_?$', 'wp', 'Handle'),
+      (r'^HeterCallbackList<', 'record', 'HCLT'),
+      (r'^HeterCallbackListBase<', 'record', 'HCLT'),
+      (r'^std::(unordered_)?map<', 'map', 'WMap'),
+      (r'^std::_Rb_tree_(const_)?iterator<|^std::__detail::_Node_(const_)?iterator(_base)?<', 'mapit', 'WMIt'),
+      (r'^std::pair<const int, HeterCallbackList<', 'record', 'WPair'),
+    ],
+)
